@@ -182,7 +182,11 @@ pub const SOUP_TOKENS: &[&str] = &[
     // NUL (the Input contract's end-of-input sentinel) inside content, a tab after a document marker,
     // comments on block scalar headers, numbers far longer than any canonical form (added after the
     // round-3 seeded changes C01-m6, C03-m6 / C05-m5, C05-m6, C19-m6 were missed)
-    "!<tag:yaml.org,2002:int> ", "!<tag:yaml.org,2002:str> ", "12: ", "!!int 12: ", "\0", "a\0b", "---\t", "...\t", "---\t|\n", "| # c\n", "> # c\r", "|2-\n", "|+ \n",
+    "!<tag:yaml.org,2002:int> ", "!<tag:yaml.org,2002:str> ", "12: ", "!!int 12: ",
+    // number-like words on both sides of the core schema (added after round-4 changes C07-m7 / m8, C08-m7, C13-m7 / m8, C01-m7)
+    "-0.0", "-.0", "-0", ".inf", "-.INF", ".NaN", "-inf", "+NaN", "Infinity", "-infinity", "nan", "0o17", "+0x10", "+0o7", "0x-1", "+12", "1_000", "3e23", "7e-23", "1e22",
+    "0.1000000000000000055511151231257827021181583404541015625", "340282366920938463463374607431768211456", "-9223372036854775808", "9223372036854775808",
+    "\"\\uD800\"", "\"\\ud83d\\ude00\"", "\\uDFFF", "\\U00110000", "\\UFFFFFFFF", "\\U0010FFFF", "\\xFF", "\\uD7FF\\uE000", "\0", "a\0b", "---\t", "...\t", "---\t|\n", "| # c\n", "> # c\r", "|2-\n", "|+ \n",
     "0000000000000000000000000000000000000000000000000000000000000000042", "115792089237316195423570985008687907853269984665640564039457584007913129639936",
     "0.00000000000000000000000000000000000000000000000000000000000000001", "0x00000000000000000000000000000000000000000000000000000000000000ff",
 ];
@@ -198,6 +202,7 @@ pub const LINE_BODIES: &[&str] = &[
     "- |", "- &a x", "- *a", "? |", "a: b: c", "\"k\": v", "'k': v", "k: v # c", "k:\tv", "-\tx", "é: 中", ", x", "x ,", "k : v", "[", "{",
     "---\t|", "...\t# c", "---\tx", "a\0b", "k: | # note", "- > # note", "k: |2-", "&a", "!!str",
     "!!int 12: a", "!<tag:yaml.org,2002:int> 12: b", "? !!str 12", "!<tag:yaml.org,2002:str> 12: c", "!!int 12: d",
+    "z: -0.0", "- -.0", "i: -inf", "- +NaN", "w: Infinity", "h: +0x10", "- 0o17", "f: 3e23", "m: -9223372036854775808", "k: \"\\uD800\"", "- \"\\ud83d\\ude00\"", "? # k", "?\t# c", "k: |\t# c", "- >\t# c",
     "k: 0000000000000000000000000000000000000000000000000000000000000000042", "- 115792089237316195423570985008687907853269984665640564039457584007913129639936",
 ];
 
